@@ -1,7 +1,7 @@
 \* witness: the code as it is must violate BudgetZeroWhenEmpty in the fine-grained model without any init error
 \* (get_or_insert between clear's len() and its budget.release)
 CONSTANTS Threads = {t1, t2}  KA = {k1, k2}  KB = {}  Cap = 2  MaxCalls = 2  MaxHeld = 2  Fine = TRUE  InitMayFail = FALSE
-          BudgetPages = 3  Ballast = 30  ClearKeepsPinned = FALSE  ReleaseOnInitError = FALSE
+          BudgetPages = 3  Ballast = 30  ClearKeepsPinned = FALSE  ClearCountsUnderLock = FALSE  ReleaseOnInitError = FALSE
 CONSTANT Keys <- KeysAll  ShardOf <- ShardsOneTwo
 SYMMETRY Sym
 SPECIFICATION Spec
